@@ -146,6 +146,50 @@ class TSet(_Traced, set):
         return sorted(set.__iter__(self))
 
 
+_SCALAR = (bool, int, float, str, type(None))
+_UNTRACED_ATTRS = ('rank',)
+
+
+def _traced_cm_class(base, h):
+    """Subclass of CommandManager whose plain-data attributes (flags,
+    counters) are scheduling points on every read and write, so that racy
+    accesses to fields other than the five containers are interleaved too."""
+    s = h.s
+
+    def point(name, rw):
+        if s.current is None or s.aborting:
+            return
+        s.point(('attr', name, rw))
+        held = frozenset(o.lid for o in s.objs
+                         if isinstance(o, S.ShimLock) and o.owner is s.current)
+        key = ('attr.' + name, rw)
+        old = h.locksets.get(key)
+        h.locksets[key] = held if old is None else (old & held)
+
+    class TracedCM(base):
+        def __getattribute__(self, name):
+            v = object.__getattribute__(self, name)
+            if name.startswith('__') or name in _UNTRACED_ATTRS:
+                return v
+            d = object.__getattribute__(self, '__dict__')
+            if name in d and isinstance(v, _SCALAR):
+                point(name, 'r')
+                v = object.__getattribute__(self, name)
+                if s.current is not None:
+                    s.current.observe(('attr', name, v))
+            return v
+
+        def __setattr__(self, name, value):
+            d = object.__getattribute__(self, '__dict__')
+            if name not in _UNTRACED_ATTRS and (
+                    isinstance(value, _SCALAR) or
+                    isinstance(d.get(name, self), _SCALAR)):
+                point(name, 'w')
+            object.__setattr__(self, name, value)
+    TracedCM.__name__ = base.__name__
+    return TracedCM
+
+
 # ---------------------------------------------------------------------------
 # fake solver
 # ---------------------------------------------------------------------------
@@ -338,6 +382,7 @@ class Harness(object):
             getattr(cm, nm).cid = nm
             getattr(cm, nm).lock.lid = nm + '.lock'
         if trace_mem:
+            cm.__class__ = _traced_cm_class(C.CommandManager, self)
             cm.queue = TList(self, 'queue', cm.queue)
             cm.queue_dict = TDict(self, 'queue_dict', cm.queue_dict)
             cm.queue_lock_map = TDict(self, 'queue_lock_map',
@@ -492,7 +537,7 @@ class Harness(object):
         return out
 
 
-def explore(scenario, budget, bound, max_exec=None, prune=True):
+def explore(scenario, budget, bound, max_exec=None, prune=True, part=None):
     hs = {}
 
     def make(prefix):
@@ -503,7 +548,7 @@ def explore(scenario, budget, bound, max_exec=None, prune=True):
     def check(exe, s):
         return hs['h'].check(exe)
     ex = S.Explorer(make, check, bound, prune=prune, max_exec=max_exec)
-    ex.explore()
+    ex.explore(part)
     ex.locksets = hs['h'].locksets
     return ex
 
@@ -516,9 +561,10 @@ def replay_schedule(scenario, budget, choices):
 
 
 def _scen_worker(args):
-    scenario, budget, bound, max_exec = args
+    scenario, budget, bound, max_exec = args[:4]
+    part = args[4] if len(args) > 4 else None
     t0 = time.time()
-    ex = explore(scenario, budget, bound, max_exec=max_exec)
+    ex = explore(scenario, budget, bound, max_exec=max_exec, part=part)
     probs = {}
     for k, w, ch, pre in ex.problems:
         if k not in probs or (pre, len(ch)) < (probs[k][2], len(probs[k][1])):
@@ -535,13 +581,17 @@ def _scen_worker(args):
                                  % (scenario, ch))
         confirmed[k] = (w, ch, pre, [(t, repr(op)) for t, op in r1[0].trace])
     ls = {'%s:%s' % k: sorted(v) for k, v in ex.locksets.items()}
+    ex0 = replay_schedule(scenario, budget, [])[0]
+    sample_trace = ['%d:%s' % (t, '/'.join(str(x) for x in op))
+                    for t, op in ex0.trace][:60]
     return dict(scenario=list(scenario), budget=budget, bound=bound,
+                part=part, state_set=ex.states if part else None,
                 executions=ex.executions, transitions=ex.transitions,
                 states=len(ex.states), outcomes=len(ex.outcomes),
                 outcome_list=[(str(k[0]), list(k[1]), v)
-                              for k, v in ex.outcomes.items()][:6],
+                              for k, v in ex.outcomes.items()][:40],
                 max_len=ex.max_len, capped=ex.capped, pruned=ex.pruned,
-                problems=confirmed, locksets=ls, wall=time.time() - t0)
+                problems=confirmed, locksets=ls, sample_trace=sample_trace, wall=time.time() - t0)
 
 
 def conformance():
@@ -659,46 +709,68 @@ def run(ctx):
     nconf = conformance()
     if ctx.thorough:
         budget, bound = 3, 3
-        jobs = [((p,), budget, bound, None) for p in SINGLE]
-        jobs += [(pr, 2, 3, 400000) for pr in PAIRS]
-        jobs += [(tr, 2, 2, 400000) for tr in TRIPLES]
+        multi = [(pr, 2, 3, 400000) for pr in PAIRS]
+        multi += [(tr, 2, 2, 400000) for tr in TRIPLES]
+        nparts = 8
     else:
         budget, bound = 2, 2
-        jobs = [((p,), budget, bound, None) for p in SINGLE]
         k = ctx.seed % len(PAIRS)
         pairs = PAIRS[:6] + [PAIRS[6 + (k % (len(PAIRS) - 6))]]
-        jobs += [(pr, 2, 2, 60000) for pr in pairs]
-    with Pool(min(ctx.ncpu, len(jobs))) as pool:
-        results = pool.map(_scen_worker, jobs, chunksize=1)
+        multi = [(pr, 2, 2, 60000) for pr in pairs]
+        nparts = 4
+    jobs = []
+    for j in multi:
+        jobs += [j + ((i, nparts),) for i in range(nparts)]
+    jobs += [((p,), budget, bound, None) for p in SINGLE]
+    from vlib.pool import map_jobs
+    results = map_jobs(_scen_worker, jobs, ctx.ncpu)
     viols = []
     tot_exec = tot_tr = tot_st = tot_out = 0
     capped = []
     per = []
     samples = []
     racy = {}
+    merged = {}
     for r in results:
-        tot_exec += r['executions']
-        tot_tr += r['transitions']
-        tot_st += r['states']
-        tot_out += r['outcomes']
-        if r['capped']:
-            capped.append(r['scenario'])
-        per.append({k: r[k] for k in ('scenario', 'budget', 'bound',
-                                      'executions', 'states', 'transitions',
-                                      'outcomes', 'max_len', 'capped',
-                                      'pruned')})
+        key = tuple(r['scenario'])
+        m = merged.setdefault(key, dict(
+            scenario=r['scenario'], budget=r['budget'], bound=r['bound'],
+            executions=0, transitions=0, pruned=0, max_len=0, capped=False,
+            parts=0, _states=set(), states=0, _out=set()))
+        m['executions'] += r['executions']
+        m['transitions'] += r['transitions']
+        m['pruned'] += r['pruned']
+        m['max_len'] = max(m['max_len'], r['max_len'])
+        m['capped'] = m['capped'] or r['capped']
+        m['parts'] += 1
+        if r['state_set'] is not None:
+            m['_states'] |= r['state_set']
+        else:
+            m['states'] += r['states']
+        m['_out'] |= set(json.dumps(o[:2]) for o in r['outcome_list'])
         for k, v in r['locksets'].items():
             racy[k] = sorted(set(racy.get(k, v)) & set(v))
-        for key, (w, ch, pre, trace) in r['problems'].items():
+        for key2, (w, ch, pre, trace) in r['problems'].items():
             viols.append(Violation(
-                'controller:%s' % key,
+                'controller:%s' % key2,
                 '%s in scenario %s (preemptions=%d, %d decisions)' % (
                     w, '+'.join(r['scenario']), pre, len(ch)),
                 dict(scenario=r['scenario'], budget=r['budget'],
                      choices=ch, trace=trace)))
+    for m in merged.values():
+        m['states'] += len(m.pop('_states'))
+        m['outcomes'] = len(m.pop('_out'))
+        tot_exec += m['executions']
+        tot_tr += m['transitions']
+        tot_st += m['states']
+        tot_out += m['outcomes']
+        if m['capped']:
+            capped.append(m['scenario'])
+        per.append(m)
     for r in results[:3] + results[-2:]:
         samples.append({'scenario': r['scenario'],
-                        'outcomes': r['outcome_list']})
+                        'outcomes': r['outcome_list'][:4],
+                        'first_schedule_trace': r.get('sample_trace')})
     cov = dict(
         states=tot_st, transitions=tot_tr,
         traces_validated_against_impl=tot_exec,
